@@ -1121,6 +1121,25 @@ def _c20_per_sig(ps, ctr):
             continue
         fails.append('sort_callsigs-invalid-accepted: %s accepts *%s **%s listed as invalid' % (sig, a, k))
         break
+    # one batch holding every shape twice, with different positional values: each bound mapping must be that of ITS call
+    cs2 = []
+    for j, (a, k) in enumerate(cs):
+        cs2.append((a, k))
+        cs2.append((tuple(('alt', j, i) for i in range(len(a))), dict(k)))
+    with warnings.catch_warnings():
+        warnings.simplefilter('ignore')
+        valid2, _inv2 = support.sort_callsigs(sig, cs2)
+    for a, k, bound in valid2:
+        if version_dependent(A, list(k.items())):
+            continue
+        try:
+            r = f(*a, **k)
+        except TypeError:
+            continue
+        if r != bound:
+            fails.append('sort_callsigs-bound-of-another-call: in a batch of %d calls, %s called with *%s **%s returns %s, sort_callsigs lists %s' % (
+                len(cs2), sig, a, k, r, bound))
+            break
     # the same call shapes with values that are false / None: acceptance is about shapes, not about the values passed
     falsy = [None, 0, '', (), False]
     for a, k in cs:
